@@ -49,18 +49,36 @@ func regexOf(a *A, rel, global string) (string, token.Pos) {
 	return pat, pos
 }
 
-// switchCases: string constants the parameter paramIdx of fn is compared with.
+// switchCases: string constants the parameter paramIdx of fn is compared with, in fn itself or in
+// module functions it hands the parameter to (an operator table shared by several comparators).
 func switchCases(fn *ssa.Function, paramIdx int) []string {
 	set := map[string]bool{}
-	allInstrs(fn, func(in ssa.Instruction) {
-		bo, ok := in.(*ssa.BinOp)
-		if !ok || bo.Op != token.EQL || bo.X != ssa.Value(fn.Params[paramIdx]) {
+	seen := map[*ssa.Function]bool{}
+	var rec func(f *ssa.Function, idx int, d int)
+	rec = func(f *ssa.Function, idx int, d int) {
+		if f == nil || f.Blocks == nil || seen[f] || d > 3 || idx >= len(f.Params) {
 			return
 		}
-		if k, ok := bo.Y.(*ssa.Const); ok && k.Value != nil && k.Value.Kind() == constant.String {
-			set[constant.StringVal(k.Value)] = true
-		}
-	})
+		seen[f] = true
+		p := f.Params[idx]
+		allInstrs(f, func(in ssa.Instruction) {
+			if bo, ok := in.(*ssa.BinOp); ok && bo.Op == token.EQL && bo.X == ssa.Value(p) {
+				if k, ok := bo.Y.(*ssa.Const); ok && k.Value != nil && k.Value.Kind() == constant.String {
+					set[constant.StringVal(k.Value)] = true
+				}
+			}
+			if c, ok := in.(*ssa.Call); ok {
+				if cal := c.Call.StaticCallee(); cal != nil && cal.Pkg == f.Pkg {
+					for j, arg := range c.Call.Args {
+						if arg == ssa.Value(p) {
+							rec(cal, j, d+1)
+						}
+					}
+				}
+			}
+		})
+	}
+	rec(fn, paramIdx, 0)
 	var out []string
 	for s := range set {
 		out = append(out, s)
@@ -125,9 +143,11 @@ func runC12(a *A) {
 						return ""
 					},
 					Assume: func(t *Term, v ssa.Value) Tri {
-						if bo, ok := v.(*ssa.BinOp); ok && bo.Op == token.EQL && bo.X == ssa.Value(fn.Params[1]) {
-							if k, ok := bo.Y.(*ssa.Const); ok && k.Value != nil {
-								return tri(constant.StringVal(k.Value) == opc)
+						if bo, ok := v.(*ssa.BinOp); ok && bo.Op == token.EQL && isStringType(bo.X.Type()) {
+							if _, isParam := bo.X.(*ssa.Parameter); isParam {
+								if k, ok := bo.Y.(*ssa.Const); ok && k.Value != nil && k.Value.Kind() == constant.String {
+									return tri(constant.StringVal(k.Value) == opc)
+								}
 							}
 						}
 						return U
